@@ -55,7 +55,7 @@ fn inner_spec(item: &PItem, slot: usize) -> Spec {
 fn snodes(item: &PItem, comb: u16, n: usize, depth: usize) -> Vec<SNode> {
     let nest = item.s("nest");
     let npos = item.u("npos", 0);
-    (0..n)
+    let v: Vec<_> = (0..n)
         .map(|slot| {
             if depth == 0 && !nest.is_empty() && slot == npos {
                 let ifam = fam_of(nest);
@@ -73,7 +73,8 @@ fn snodes(item: &PItem, comb: u16, n: usize, depth: usize) -> Vec<SNode> {
                 SNode::Leaf(SLeaf { id })
             }
         })
-        .collect()
+        .collect();
+    crate::shape_vec(item, v)
 }
 
 pub fn build(item: &PItem, fam: Fam, cont: &str, n: usize, comb: u16, depth: usize) -> BoxStr {
